@@ -407,7 +407,8 @@ def c05(prop, tier, seed):
 # C06 - thread pool
 
 _PCW = {"none": "-", "lock": "L", "condwait": "W", "sleeping": "S", "woken": "R", "unlock_run": "U", "taskbegin": "B",
-        "taskend": "E", "exit_bcast": "C", "exit_unlock": "U", "exited": "X"}
+        "taskend": "E", "exit_bcast": "C", "exit_unlock": "U", "exited": "X",
+        "n_lock": "L", "n_refuse": "U", "n_create": "T", "n_signal": "G", "n_unlock": "U"}
 _PCS = {"idle": "-", "lock": "L", "create": "T", "signal": "G", "unlock": "U", "done": "X"}
 _PCM = {"create": "T", "start": "s", "joinsubs": "j", "f_lock": "L", "f_bcast": "C", "f_unlock": "U", "f_join": "J",
         "f_lock2": "L", "f_wait": "W", "f_sleeping": "S", "f_woken": "R", "f_unlock2": "U", "f_cdestroy": "c",
@@ -433,7 +434,8 @@ def thpool_canon(st):
     return "-", "|".join(parts)
 
 
-THPOOL_SIZES = {"1x2": (1, "2"), "2x2": (2, "2"), "2x11": (2, "1,1"), "2x21": (2, "2,1"), "3x3": (3, "3")}
+THPOOL_SIZES = {"1x2": (1, "2"), "2x2": (2, "2"), "2x11": (2, "1,1"), "2x21": (2, "2,1"), "3x3": (3, "3"), "2x2f": (2, "2")}
+THPOOL_FOLLOW = {"2x2f": "1:3,2:4"}      # tasks that submit follow-up tasks to their own pool while they run
 
 
 @check("C06")
@@ -443,7 +445,7 @@ def c06(prop, tier, seed):
                       per_file_flags={"Lib/thpool/thpool.c": ["-include", os.path.join(vplib.HARN, "vp_sched.h")]})
     quick = tier == "quick"
     flavours = [l + d + w for l in "le" for d in "dj" for w in "ac"]
-    sizes = ["2x2", "2x21"] if quick else ["1x2", "2x2", "2x11", "2x21", "3x3"]
+    sizes = ["2x2", "2x21", "2x2f"] if quick else ["1x2", "2x2", "2x11", "2x21", "3x3", "2x2f"]
     budget = 1500 if quick else 60000
     walks = 300 if quick else 20000
     tasks = []
@@ -454,9 +456,11 @@ def c06(prop, tier, seed):
             env = {"VP_N": str(n), "VP_SUBS": subs, "VP_LAZY": "1" if fl[0] == "l" else "0",
                    "VP_DETACHED": "1" if fl[1] == "d" else "0", "VP_WAITALL": "1" if fl[2] == "a" else "0",
                    "GW_COVER_TAIL": "6"}
+            if sz in THPOOL_FOLLOW:
+                env["VP_FOLLOW"] = THPOOL_FOLLOW[sz]
             tasks.append(lambda tag=tag, env=env: e1e2(R, "ThpoolMC.tla", tag + ".cfg", tag, thpool_canon, exe, env, 400, budget,
                                                        walks, 60, seed, workers=2))
-            if not quick or sz == "2x21":
+            if not quick or sz in ("2x21", "2x2f"):
                 tasks.append(lambda tag=tag: tlc_only(R, "ThpoolMC.tla", tag + "_live.cfg", tag + "_live", workers=2))
     # 4 workers, 5 tasks, 2 submitters: too large to enumerate; complete schedules sampled by TLC's simulation mode
     for fl in flavours:
@@ -726,7 +730,7 @@ CORE_CFGS = {
 }
 
 
-def core_check(prop, tier, seed, quick_cfgs, thorough_cfgs, rule, Dq=5, Dt=7, budget_q=60000, budget_t=4000000, loop_cfgs=(), col_cfgs=(), sim_cfgs=(), loop_cfgs_thorough=()):
+def core_check(prop, tier, seed, quick_cfgs, thorough_cfgs, rule, Dq=5, Dt=7, budget_q=60000, budget_t=4000000, loop_cfgs=(), col_cfgs=(), sim_cfgs=(), loop_cfgs_thorough=(), timeout_t=1500, sim_rounds_t=12):
     R = Result(prop, tier, seed)
     exe = build_core()
     quick = tier == "quick"
@@ -744,7 +748,7 @@ def core_check(prop, tier, seed, quick_cfgs, thorough_cfgs, rule, Dq=5, Dt=7, bu
         mp = int(env.get("VP_MAXPAY", "1"))
         tasks.append(lambda name=name, mods=mods, env=env, mp=mp: core_run(
             R, exe, "Core_mc_%s.cfg" % name, mods, env, Dq if quick else Dt, budget_q if quick else budget_t,
-            1500 if quick else 100000, 40, seed, maxpay=mp, workers=max(2, 12 // len(cfgs))))
+            1500 if quick else 100000, 40, seed, maxpay=mp, workers=max(2, 12 // len(cfgs)), timeout=1500 if quick else timeout_t))
     if not quick and not os.environ.get("VP_ONLY"):
         loop_cfgs = list(loop_cfgs) + list(loop_cfgs_thorough)
     for name in loop_cfgs:
@@ -766,7 +770,7 @@ def core_check(prop, tier, seed, quick_cfgs, thorough_cfgs, rule, Dq=5, Dt=7, bu
             1500 if quick else 100000, 40, seed, maxpay=mp, workers=2, suffix=".col"))
     for name in sim_cfgs:
         # thorough: several rounds of a size the graph-table builder handles, each with its own seed
-        for rnd in range(1 if quick else 12):
+        for rnd in range(1 if quick else sim_rounds_t):
             tasks.append(lambda name=name, rnd=rnd: core_sim(R, exe, name, 1600 if quick else 4000, 40 if quick else 60, seed + 1000 * rnd, workers=4, suffix="" if quick else ".r%d" % rnd))
     vplib.parallel(tasks, max_workers=4)
     R.rule = ("programs = paths of the dumped TLC graph of Core.tla (configs: %s) whose edges are public API calls made from the top "
@@ -872,7 +876,7 @@ def c04(prop, tier, seed):
                       "or the loop stops (the function returns only when the library waits for it, or afterwards if it does not wait)."
                       " Configurations marked .sim are too large to enumerate: TLC's simulation mode samples behaviours (all features at once: 3 modules "
                       "with hooks, priorities, batching, stash, become, token bucket, descriptor / timer / signal / task sources, tick, retained events), "
-                      "the monitors are checked on every sampled state and every sampled behaviour is replayed.", Dq=5, Dt=6, sim_cfgs=["mix", "mixb", "mix4"])
+                      "the monitors are checked on every sampled state and every sampled behaviour is replayed.", Dq=5, Dt=6, sim_cfgs=["mix", "mixb", "mix4"], timeout_t=900, sim_rounds_t=8)
 
 
 # ------------------------------------------------------------------------------------------
